@@ -243,6 +243,15 @@ def run_one(spec: dict) -> dict:
             tgt = regs[0][2] if regs else None
             if got != want or tgt != a["target"]:
                 viol = viol or {"class": "session_register_wrong", "message": f"statement {i} `{script[i]}` defines {a['target']} with columns {want}; registered: {regs} (provider in use: {in_use})"}
+        ko = (spec.get("keep_order") or {}).get(str(i))
+        if ko and in_use and ko in model:
+            # writing into a table the script already defined (explicit column list in another order / positional
+            # insert) must leave what the session knows about it - names AND order - as it was
+            probe("known_table_written_again")
+            for r in regs:
+                if r[2] == ko and list(r[3]) != list(model[ko]):
+                    viol = viol or {"class": "session_column_order_changed", "message": f"statement {i} `{script[i]}` writes into {ko}, whose columns the session knew as {model[ko]}; "
+                                    f"afterwards it registered {r[3]} (script {script})"}
         for r in regs:
             model[r[2]] = list(r[3])
         session_states.append(sorted(model.items()))
@@ -447,6 +456,37 @@ def gen_recreate(g, seed, ps, base, dialect) -> dict:
     return spec
 
 
+def gen_reorder(g, seed, ps, dialect) -> dict:
+    """A table whose columns the script defined is written again: first through an explicit column list in ANOTHER
+    order, then positionally.  What the session knows about the table's columns - including their order, which is
+    what a positional INSERT is matched against - must not change."""
+    tag = f"k{seed % 1000}"
+    b1, b2, b3 = g.sample(sorted(BASE_META), 3) if len(BASE_META) >= 3 else (sorted(BASE_META) * 3)[:3]
+    T, W = g.sample(UNIVERSE, 2)
+    n = g.choice([2, 3])
+    cols = [f"c_{tag}_r{i}" for i in range(n)]
+    pick = lambda b, k: [g.choice(BASE_META[b]) for _ in range(k)]
+    x = pick(b1, n)
+    s1 = f"CREATE TABLE {T} AS SELECT " + ", ".join(f"{a} AS {c}" for a, c in zip(x, cols)) + f" FROM {b1}"
+    perm = list(cols)
+    while perm == cols:
+        g.shuffle(perm)
+    y = BASE_META[b2][:n] if len(BASE_META[b2]) >= n else pick(b2, n)
+    s2 = f"INSERT INTO {T} ({', '.join(perm)}) SELECT {', '.join(y)} FROM {b2}"
+    z = list(dict.fromkeys(BASE_META[b3]))[:n]
+    if len(z) < n:
+        z = (z * n)[:n]
+    s3 = f"INSERT INTO {T} SELECT {', '.join(z)} FROM {b3}"
+    s4 = f"INSERT INTO {W} SELECT {', '.join(cols)} FROM {T}"
+    ann = lambda kind, t, out, srcs_: {"kind": kind, "target": t, "out": out, "srcs": srcs_, "star": False, "wild": False}
+    annot = [ann("ctas", T, list(cols), [b1]), ann("insert_cols", T, None, [b2]), ann("insert", T, None, [b3]), ann("insert", W, list(cols), [T])]
+    spec = {"seed": seed, "script": [s1, s2, s3, s4], "annot": annot, "provider": ps, "dialect": dialect, "shape": "reorder",
+            "trailing_semicolon": g.random() < 0.5, "keep_order": {"1": T, "2": T}}
+    if len(set(z)) == n:
+        spec["expect_pairs"] = {"2": [[f"{b3}.{zc}", f"{T}.{c}"] for zc, c in zip(z, cols)]}
+    return spec
+
+
 def gen(seed) -> dict:
     g = stream(seed, "gen")
     r = g.random()
@@ -460,6 +500,8 @@ def gen(seed) -> dict:
     dialect = g.choice(["ansi", "ansi", "non-validating"])
     if g.random() < 0.15:
         return gen_recreate(g, seed, ps, base, dialect)
+    if ps is not None and ps["meta"] and dialect == "ansi" and g.random() < 0.12:
+        return gen_reorder(g, seed, ps, dialect)
     sg = ScriptGen(g, f"k{seed % 1000}", known=base, allow_drop_rename=False, allow_cte=g.random() < 0.5)
     sg.strict_subquery_cols = True
     sg.shadow_targets = sorted(base)
